@@ -18,8 +18,22 @@ same constants, so the correspondence run compares the code with the model *of t
   statsAligns           `stats` calls `validate_arrays(zones, values)` (which rechunks the values)
   crosstab2dAligns  D12 2-D dask `crosstab` brings the values onto the zones chunking
   crosstab3dAligns      the 3-D dask path does
+  stridesBits           width of the integer array `_strides` returns (the crosstab counts are differences of it)
+  stridesProg           `_strides` itself, translated statement by statement into the loop language of Model/ZonalLoop.lean
+  mask*                 the validity filters `A[mask]` of `_calc_stats`, `_find_cats`, `_single_zone_crosstab_2d/_3d` as `MExpr`
+  pctNumpy / pctDask    the `percentage` expression of `_crosstab_numpy` / `_crosstab_df_dask`, translated into a
+                        `PExpr` tree (Model/Crosstab.lean) over count / total / literals / `*` / `/`
+
+Equivalent spellings.  The recognisers work on a *normalised* view of the source, so that a rewrite that cannot
+change behaviour does not change a fact: a name that is assigned exactly once is replaced by its value (`inline`),
+`for i in range(len(xs))` + `xs[i]`, `for x in xs`, `for i, x in enumerate(xs)` are the same loop (`elem_loops`;
+`range(1, len(xs))` / `xs[1:]` = the elements after the first), positional and keyword arguments of the numpy
+reductions are the same call (`canon`), `float('nan')` / `math.nan` / `np.nan` / `np.NaN` are the same constant,
+a filtering list comprehension and the loop appending to a fresh list are the same selection (`selections`).
+Whatever is still not recognised after that is reported as unknown / false.
 """
 import ast
+import copy
 import os
 
 REL = "xrspatial/zonal.py"
@@ -44,7 +58,258 @@ def lean_strs(xs):
     return "[" + ", ".join('"' + x.replace('"', "'") + '"' for x in xs) + "]"
 
 
+# ---------------------------------------------------------------- normalisation (equivalent spellings)
+class _Subst(ast.NodeTransformer):
+    def __init__(self, env):
+        self.env = env
+
+    def visit_Name(self, n):
+        if isinstance(n.ctx, ast.Load) and n.id in self.env:
+            return ast.copy_location(copy.deepcopy(self.env[n.id]), n)
+        return n
+
+
+MUTATORS = ("append", "extend", "sort", "insert", "pop", "remove", "update", "clear", "fill", "put", "resize", "setdefault",
+            "itemset", "partition", "byteswap", "setflags")
+
+
+def single_assignments(func):
+    """{name: value} for the local names that are bound exactly once in `func`, by a plain `name = value`
+    (no augmented assignment, not a loop / with / comprehension target, not a parameter), whose value does not
+    mention the name itself: such a name is a temporary and can be replaced by its value wherever it is read"""
+    counts, values = {}, {}
+    params = {a.arg for a in func.args.args + func.args.kwonlyargs + func.args.posonlyargs}
+    if func.args.vararg:
+        params.add(func.args.vararg.arg)
+    if func.args.kwarg:
+        params.add(func.args.kwarg.arg)
+    for n in ast.walk(func):
+        if isinstance(n, ast.Name) and isinstance(n.ctx, (ast.Store, ast.Del)):
+            counts[n.id] = counts.get(n.id, 0) + 1
+        if isinstance(n, ast.Assign) and len(n.targets) == 1 and isinstance(n.targets[0], ast.Name):
+            values[n.targets[0].id] = n.value
+    mutated = set()
+    for n in ast.walk(func):
+        if isinstance(n, (ast.Subscript, ast.Attribute)) and isinstance(n.ctx, (ast.Store, ast.Del)) and isinstance(n.value, ast.Name):
+            mutated.add(n.value.id)
+        if isinstance(n, ast.AugAssign):
+            t = n.target
+            while isinstance(t, (ast.Subscript, ast.Attribute)):
+                t = t.value
+            if isinstance(t, ast.Name):
+                mutated.add(t.id)
+        if isinstance(n, ast.Call) and isinstance(n.func, ast.Attribute) and isinstance(n.func.value, ast.Name) \
+                and n.func.attr in MUTATORS:
+            mutated.add(n.func.value.id)
+        if isinstance(n, ast.Call) and any(k.arg == "out" for k in n.keywords):
+            mutated.update(m.id for k in n.keywords if k.arg == "out" for m in ast.walk(k.value) if isinstance(m, ast.Name))
+    out = {}
+    for k, v in values.items():
+        free = {m.id for m in ast.walk(v) if isinstance(m, ast.Name)} - {"np", "da", "math"}
+        if free & mutated:
+            continue
+        # the names the value reads must be stable themselves (parameters never rebound, names bound at most once)
+        stable = all(counts.get(f, 0) <= (0 if f in params else 1) for f in free)
+        if counts.get(k) == 1 and k not in params and k not in free and stable:
+            out[k] = v
+    return out
+
+
+def single_assignments_raw(func):
+    """{name: value} of the names bound exactly once by a plain assignment, without the stability conditions"""
+    counts, values = {}, {}
+    for n in ast.walk(func):
+        if isinstance(n, ast.Name) and isinstance(n.ctx, (ast.Store, ast.Del)):
+            counts[n.id] = counts.get(n.id, 0) + 1
+        if isinstance(n, ast.Assign) and len(n.targets) == 1 and isinstance(n.targets[0], ast.Name):
+            values[n.targets[0].id] = n.value
+    return {k: v for k, v in values.items() if counts.get(k) == 1}
+
+
+def pure_expr(v):
+    """no call except a few value-only ones: replacing a name by such an expression cannot reorder effects"""
+    for m in ast.walk(v):
+        if isinstance(m, ast.Call):
+            fn = u(m.func)
+            value_only = fn in ("len", "range", "list", "tuple", "type", "isinstance", "float", "int") or \
+                (fn.startswith("np.") and fn.count(".") == 1 and not fn.startswith("np.random")) or \
+                (isinstance(m.func, ast.Attribute) and m.func.attr in ("ravel", "astype", "reshape", "sum", "max", "min"))
+            if not value_only or any(k.arg == "out" for k in m.keywords):
+                return False
+        if isinstance(m, (ast.Lambda, ast.ListComp, ast.DictComp, ast.SetComp, ast.GeneratorExp, ast.Await, ast.Yield,
+                          ast.Dict, ast.List, ast.Set)):       # a fresh mutable object is not a value
+            return False
+    return True
+
+
+def inline(node, func, only=None, depth=4):
+    """`node` with the temporaries of `func` replaced by their values (repeated: temporaries of temporaries)"""
+    env = {k: v for k, v in single_assignments(func).items() if pure_expr(v) and (only is None or k in only)}
+    node = copy.deepcopy(node)
+    for _ in range(depth):
+        before = ast.dump(node)
+        node = _Subst(env).visit(node)
+        if ast.dump(node) == before:
+            break
+    return node
+
+
+NAN_SPELLINGS = ("np.nan", "np.NaN", "np.NAN", "numpy.nan", "math.nan", "float('nan')", 'float("nan")', "float('NaN')")
+AXIS_REDUCTIONS = ("np.nanmax", "np.nanmin", "np.nansum", "np.all", "np.any", "np.sum", "np.max", "np.min")
+
+
+class _Canon(ast.NodeTransformer):
+    """np.nan spellings -> np.nan; `np.nansum(b, 0)` -> `np.nansum(b, axis=0)`; redundant parentheses vanish in unparse"""
+
+    def visit_Call(self, n):
+        self.generic_visit(n)
+        if ast.unparse(n).replace(" ", "") in NAN_SPELLINGS:
+            return ast.copy_location(ast.parse("np.nan", mode="eval").body, n)
+        if ast.unparse(n.func) in AXIS_REDUCTIONS and len(n.args) == 2 and not any(k.arg == "axis" for k in n.keywords):
+            n.keywords = [ast.keyword(arg="axis", value=n.args[1])] + n.keywords
+            n.args = n.args[:1]
+        return n
+
+    def visit_Attribute(self, n):
+        self.generic_visit(n)
+        if ast.unparse(n) in NAN_SPELLINGS:
+            return ast.copy_location(ast.parse("np.nan", mode="eval").body, n)
+        return n
+
+
+def canon(node):
+    return _Canon().visit(copy.deepcopy(node))
+
+
+def cu(node):
+    """canonical text of an expression / statement"""
+    return u(canon(node))
+
+
+def elem_loops(func, seq, tail=False, within=None):
+    """the `for` loops of `func` that visit the elements of `seq` (tail: the elements after the first) once each, in
+    order, in any of the usual spellings; yields (loop, element text): the text that denotes the current element in the body.
+    Temporaries are inlined first (`rest = seq[1:]; for x in rest`)."""
+    nodes = ast.walk(func) if within is None else (m for st in within for m in ast.walk(st))
+    for n in nodes:
+        if not isinstance(n, ast.For) or n.orelse:
+            continue
+        it = u(inline(n.iter, func))
+        tgt = n.target
+        whole, rest = seq, f"{seq}[1:]"
+        want = rest if tail else whole
+        if isinstance(tgt, ast.Name):
+            if it == want or it in (f"list({want})", f"tuple({want})"):
+                yield n, tgt.id
+            elif not tail and it in (f"range(len({seq}))", f"range(0,len({seq}))"):
+                yield n, f"{seq}[{tgt.id}]"
+            elif tail and it == f"range(1,len({seq}))":
+                yield n, f"{seq}[{tgt.id}]"
+        elif isinstance(tgt, ast.Tuple) and len(tgt.elts) == 2 and all(isinstance(e, ast.Name) for e in tgt.elts):
+            if it == f"enumerate({want})" or (tail and it == f"enumerate({rest},1)") or (tail and it == f"enumerate({rest},start=1)"):
+                yield n, tgt.elts[1].id
+
+
+class _Rename(ast.NodeTransformer):
+    """replace every expression whose text is a key of `table` by the name it maps to"""
+
+    def __init__(self, table):
+        self.table = table
+
+    def visit(self, n):
+        if isinstance(n, ast.expr) and u(n) in self.table:
+            return ast.copy_location(ast.Name(id=self.table[u(n)], ctx=ast.Load()), n)
+        return self.generic_visit(n)
+
+
+def body_text(stmts, func, table):
+    """canonical text of a statement list with the temporaries inlined and the expressions of `table`
+    (current element, first element, ...) replaced by placeholder names"""
+    out = []
+    for st in stmts:
+        if isinstance(st, ast.Expr) and isinstance(st.value, ast.Constant):
+            continue                                          # docstring / stray string
+        out.append(u(_Rename(table).visit(canon(inline(st, func)))))
+    return out
+
+
+def selections(func):
+    """the `name = [x for x in ITER if x in CONT]` selections of `func`, also when written as a loop that appends
+    to a fresh list (optionally renamed afterwards): [(name, ITER text, CONT text)]"""
+    out = []
+    fresh = {}
+    for n in ast.walk(func):
+        if isinstance(n, ast.Assign) and len(n.targets) == 1 and isinstance(n.targets[0], ast.Name):
+            name, v = n.targets[0].id, n.value
+            if isinstance(v, ast.ListComp) and len(v.generators) == 1 and len(v.generators[0].ifs) == 1 \
+                    and not v.generators[0].is_async:
+                g = v.generators[0]
+                x = u(g.target)
+                t = g.ifs[0]
+                if u(v.elt) == x and isinstance(t, ast.Compare) and len(t.ops) == 1 and isinstance(t.ops[0], ast.In) \
+                        and u(t.left) == x:
+                    out.append((name, u(g.iter), u(t.comparators[0])))
+            if isinstance(v, ast.List) and not v.elts:
+                fresh[name] = n.lineno
+    for n in ast.walk(func):
+        if isinstance(n, ast.For) and not n.orelse and isinstance(n.target, ast.Name) and len(n.body) == 1 \
+                and isinstance(n.body[0], ast.If) and not n.body[0].orelse and len(n.body[0].body) == 1:
+            x, t, act = n.target.id, n.body[0].test, n.body[0].body[0]
+            if isinstance(t, ast.Compare) and len(t.ops) == 1 and isinstance(t.ops[0], ast.In) and u(t.left) == x \
+                    and isinstance(act, ast.Expr) and isinstance(act.value, ast.Call):
+                call = act.value
+                if isinstance(call.func, ast.Attribute) and call.func.attr == "append" and isinstance(call.func.value, ast.Name) \
+                        and call.func.value.id in fresh and fresh[call.func.value.id] < n.lineno \
+                        and len(call.args) == 1 and u(call.args[0]) == x:
+                    acc = call.func.value.id
+                    out.append((acc, u(n.iter), u(t.comparators[0])))
+                    for m in ast.walk(func):      # `zone_ids = selected` afterwards
+                        if isinstance(m, ast.Assign) and len(m.targets) == 1 and isinstance(m.targets[0], ast.Name) \
+                                and isinstance(m.value, ast.Name) and m.value.id == acc and m.lineno > n.lineno:
+                            out.append((m.targets[0].id, u(n.iter), u(t.comparators[0])))
+    return out
+
+
+def call_args(call, funcdef):
+    """the arguments of `call` in the order of `funcdef`'s parameters (keywords resolved); None if that is not possible"""
+    names = [a.arg for a in funcdef.args.args]
+    got = {}
+    for i, a in enumerate(call.args):
+        if isinstance(a, ast.Starred) or i >= len(names):
+            return None
+        got[names[i]] = a
+    for k in call.keywords:
+        if k.arg is None or k.arg not in names or k.arg in got:
+            return None
+        got[k.arg] = k.value
+    if set(got) != set(names):
+        return None
+    return [got[nm] for nm in names]
+
+
 # ---------------------------------------------------------------- D1
+def STRIP_TEMPS(f):
+    """the names that may be inlined into the mask of the strip: everything bound once except `sorted_indices`
+    (bound twice anyway) -- `sorted_zones = flatten_zones[sorted_indices]` taken *before* the strip is the same mask"""
+    return {k for k in single_assignments(f)}
+
+
+def adjacent_value(func, stmt, expr):
+    """`expr`, or -- when it is a name bound by the statement right before `stmt` in the same block -- that value
+    (`mask = ...; a = a[mask]`: nothing can happen in between)"""
+    if not isinstance(expr, ast.Name):
+        return expr
+    for n in ast.walk(func):
+        for field in ("body", "orelse", "finalbody"):
+            blk = getattr(n, field, None)
+            if isinstance(blk, list) and stmt in blk:
+                i = blk.index(stmt)
+                if i > 0 and isinstance(blk[i - 1], ast.Assign) and len(blk[i - 1].targets) == 1 \
+                        and u(blk[i - 1].targets[0]) == expr.id:
+                    return blk[i - 1].value
+    return expr
+
+
 def fact_strip(mod):
     f = find_func(mod, "_sort_and_stride")
     if f is None:
@@ -57,8 +322,8 @@ def fact_strip(mod):
             if t.startswith("values_by_zones") and first_gather is None:
                 first_gather = n.lineno
             if t == "sorted_indices" and isinstance(n.value, ast.Subscript) and u(n.value.value) == "sorted_indices" \
-                    and u(n.value.slice) in ("np.isfinite(flatten_zones[sorted_indices])",
-                                             "np.isfinite(sorted_zones)"):
+                    and u(inline(adjacent_value(f, n, n.value.slice), f, only=STRIP_TEMPS(f))) in (
+                        "np.isfinite(flatten_zones[sorted_indices])", "np.isfinite(zones.ravel()[sorted_indices])"):
                 strip_line = n.lineno
     # every gather must use fancy indexing with sorted_indices (the 3-D loop form needs equal lengths)
     src = u(f)
@@ -78,9 +343,13 @@ def nan_aware_sum_helper(mod, name):
     if not body or not isinstance(body[-1], ast.Return):
         return False
     for s in body[:-1]:
-        if not (isinstance(s, ast.Assign) and u(s.targets[0]) == a and u(s.value).startswith(f"np.asarray({a}")):
-            return False
-    return u(body[-1].value) == f"np.where(np.all(np.isnan({a}),axis=0),np.nan,np.nansum({a},axis=0))"
+        if isinstance(s, ast.Assign) and u(s.targets[0]) == a and u(s.value).startswith(f"np.asarray({a}"):
+            continue
+        if isinstance(s, ast.Assign) and len(s.targets) == 1 and isinstance(s.targets[0], ast.Name) \
+                and s.targets[0].id in single_assignments(f):
+            continue                                      # a temporary, inlined below
+        return False
+    return cu(inline(body[-1].value, f)) == f"np.where(np.all(np.isnan({a}),axis=0),np.nan,np.nansum({a},axis=0))"
 
 
 def classify_comb(mod, lam):
@@ -92,7 +361,7 @@ def classify_comb(mod, lam):
     if isinstance(body, ast.BinOp) and isinstance(body.op, ast.Pow) and u(body.right) == "2":
         squared = True
         body = body.left
-    s = u(body)
+    s = cu(body)
     if s == f"np.nanmax({a},axis=0)":
         return "nanmax", squared
     if s == f"np.nanmin({a},axis=0)":
@@ -106,17 +375,23 @@ def classify_comb(mod, lam):
 
 
 def dict_call(mod, name):
+    """`name = dict(k=v, ...)` or `name = {'k': v, ...}` at module level"""
     for n in mod.body:
-        if isinstance(n, ast.Assign) and u(n.targets[0]) == name and isinstance(n.value, ast.Call) \
-                and u(n.value.func) == "dict":
-            return {k.arg: k.value for k in n.value.keywords}
+        if isinstance(n, ast.Assign) and u(n.targets[0]) == name:
+            if isinstance(n.value, ast.Call) and u(n.value.func) == "dict" and not n.value.args:
+                return {k.arg: k.value for k in n.value.keywords}
+            if isinstance(n.value, ast.Dict) and all(isinstance(k, ast.Constant) and isinstance(k.value, str) for k in n.value.keys):
+                return {k.value: v for k, v in zip(n.value.keys, n.value.values)}
     return {}
 
 
-BLOCK_SHAPES = {"max": ["{z}.max()"], "min": ["{z}.min()"], "sum": ["{z}.sum()"], "count": ["_stats_count({z})"],
+BLOCK_SHAPES = {"max": ["{z}.max()", "np.max({z})"], "min": ["{z}.min()", "np.min({z})"], "sum": ["{z}.sum()", "np.sum({z})"],
+                "count": ["_stats_count({z})"],
                 # the square is taken in float64 since the D23 repair (a square in the raster's own narrow
                 # integer dtype wraps around; the model's exact arithmetic corresponds to the float form only)
-                "sum_squares": ["({z}.astype(np.float64)**2).sum()", "({z}.astype(float)**2).sum()"]}
+                "sum_squares": ["({z}.astype(np.float64)**2).sum()", "({z}.astype(float)**2).sum()",
+                                "({z}.astype('float64')**2).sum()", "np.sum({z}.astype(np.float64)**2)",
+                                "np.square({z}.astype(np.float64)).sum()"]}
 
 
 def fact_block_stats(mod):
@@ -138,7 +413,12 @@ def fact_dask_args(mod):
         return out
     for n in ast.walk(f):
         if isinstance(n, ast.Call) and isinstance(n.func, ast.Name) and n.func.id in out:
-            out[n.func.id] = [u(a).replace("stats_dict", "").replace("['", "").replace("']", "") for a in n.args]
+            fd = find_func(mod, n.func.id)
+            args = call_args(n, fd) if fd is not None else None
+            if args is None:
+                continue
+            out[n.func.id] = [u(inline(a, f)).replace("stats_dict", "").replace("['", "").replace("']", "").replace('["', "").replace('"]', "")
+                              for a in args]
     return out
 
 
@@ -148,9 +428,19 @@ def fact_cat_start(mod):
     if f is None:
         return False
     for n in f.body:
-        if isinstance(n, ast.For):
+        if isinstance(n, ast.For) and not n.orelse:
+            # the index of the current category: `for j, cat in enumerate(unique_cats)` / `for j in range(len(unique_cats))`
+            it = u(n.iter)
+            if isinstance(n.target, ast.Tuple) and it == "enumerate(unique_cats)":
+                j = u(n.target.elts[0])
+            elif isinstance(n.target, ast.Name) and it in ("range(len(unique_cats))", "range(0,len(unique_cats))",
+                                                           "range(unique_cats.shape[0])", "range(unique_cats.size)"):
+                j = n.target.id
+            else:
+                continue
             for s in n.body:      # statements directly in the loop body: executed for every category
-                if isinstance(s, ast.Assign) and u(s.targets[0]) == "cat_start" and u(s.value) == "zone_cat_breaks[j]":
+                if isinstance(s, ast.Assign) and u(s.targets[0]) == "cat_start" \
+                        and u(inline(s.value, f, only={k for k in single_assignments(f) if k != "cat_start"})) == f"zone_cat_breaks[{j}]":
                     return True
     return False
 
@@ -161,10 +451,16 @@ def select_ids_iterates_second(mod):
     f = find_func(mod, "_select_ids")
     if f is None or [a.arg for a in f.args.args] != ["unique_ids", "ids"]:
         return False
-    for n in f.body:
-        if isinstance(n, ast.For) and u(n.iter) == "ids" and len(n.body) == 1 and isinstance(n.body[0], ast.If) \
-                and u(n.body[0].test) == f"{u(n.target)}inunique_ids":
-            return True
+    # `for i in ids: if i in unique_ids: selected.append(i)` or `return [i for i in ids if i in unique_ids]`
+    if any(it == "ids" and cont == "unique_ids" for _, it, cont in selections(f)):
+        return True
+    for n in ast.walk(f):
+        if isinstance(n, ast.Return) and isinstance(n.value, ast.ListComp):
+            fake = ast.parse("r__ = 0").body[0]
+            fake.value = n.value
+            g = ast.FunctionDef(name="g", args=f.args, body=[fake], decorator_list=[], lineno=0, col_offset=0)
+            if any(it == "ids" and cont == "unique_ids" for _, it, cont in selections(g)):
+                return True
     return False
 
 
@@ -172,14 +468,8 @@ def fact_rows_sorted_numpy(mod):
     f = find_func(mod, "_crosstab_numpy")
     if f is None:
         return False
-    for n in ast.walk(f):
-        if isinstance(n, ast.Assign) and u(n.targets[0]) == "zone_ids" and isinstance(n.value, ast.ListComp):
-            g = n.value.generators
-            if len(g) == 1 and len(g[0].ifs) == 1:
-                v = u(g[0].target)
-                if u(n.value.elt) == v and u(g[0].iter) == "unique_zones" and u(g[0].ifs[0]) == f"{v}inzone_ids":
-                    return True
-    return False
+    # `zone_ids = [z for z in unique_zones if z in zone_ids]`, or the same selection as an appending loop
+    return any(name == "zone_ids" and it == "unique_zones" and cont == "zone_ids" for name, it, cont in selections(f))
 
 
 def fact_rows_sorted_dask(mod):
@@ -190,7 +480,8 @@ def fact_rows_sorted_dask(mod):
         if isinstance(n, ast.Assign) and u(n.targets[0]) == "zone_ids" and isinstance(n.value, ast.Call) \
                 and u(n.value.func) == "_select_ids":
             # the function keeps the members of its 2nd argument that are in the 1st, in the 2nd's order
-            return [u(a) for a in n.value.args] == ["zone_ids", "unique_zones"]
+            args = call_args(n.value, find_func(mod, "_select_ids"))
+            return args is not None and [u(a) for a in args] == ["zone_ids", "unique_zones"]
     return False
 
 
@@ -202,9 +493,41 @@ def fact_stats_aligns(mod, repo):
     calls = any(isinstance(n, ast.Call) and u(n.func) == "validate_arrays" and [u(a) for a in n.args] == ["zones", "values"]
                 for n in ast.walk(f))
     um = ast.parse(open(os.path.join(repo, "xrspatial/utils.py")).read())
-    va = find_func(um, "validate_arrays")
-    rech = va is not None and "arrays[i].data=arrays[i].data.rechunk(first_array.chunks)" in u(va)
-    return calls and rech
+    return calls and validate_arrays_rechunks(find_func(um, "validate_arrays"))
+
+
+def validate_arrays_rechunks(va):
+    """`validate_arrays(*arrays)`: when the first array is dask-backed, every later array whose chunks differ is
+    rechunked to the first one's chunks (any spelling of the loop over the later arrays; unconditional rechunk is fine too)"""
+    if va is None or va.args.vararg is None or va.args.args:
+        return False
+    seq = va.args.vararg.arg
+    first = f"{seq}[0]"
+    for loop, elem in elem_loops(va, seq, tail=True):
+        # the loop must sit under `if isinstance(<first>.data, da.Array):` (or at function level: rechunk of a numpy
+        # array would raise, so a guard is required)
+        guard = None
+        for n in ast.walk(va):
+            if isinstance(n, ast.If) and loop in n.body and not n.orelse:
+                guard = cu(inline(n.test, va))
+                for nm, v in single_assignments_raw(va).items():
+                    if u(v) == first:
+                        guard = guard.replace(f"isinstance({nm}.data", f"isinstance({first}.data")
+        if guard not in (f"isinstance({first}.data,da.Array)", f"isinstance({first}.data,dask.array.Array)"):
+            continue
+        table = {elem: "E_", first: "F_"}
+        for n in va.body:          # `first_array = arrays[0]`
+            if isinstance(n, ast.Assign) and len(n.targets) == 1 and isinstance(n.targets[0], ast.Name) and u(n.value) == first \
+                    and sum(1 for m in ast.walk(va) if isinstance(m, ast.Name) and m.id == n.targets[0].id
+                            and isinstance(m.ctx, ast.Store)) == 1:
+                table[n.targets[0].id] = "F_"
+        body = body_text(loop.body, va, table)
+        if body in (["ifF_.chunks!=E_.chunks:\nE_.data=E_.data.rechunk(F_.chunks)"],
+                    ["ifnotF_.chunks==E_.chunks:\nE_.data=E_.data.rechunk(F_.chunks)"],
+                    ["ifE_.chunks!=F_.chunks:\nE_.data=E_.data.rechunk(F_.chunks)"],
+                    ["E_.data=E_.data.rechunk(F_.chunks)"]):
+            return True
+    return False
 
 
 def fact_crosstab_aligns(mod, repo):
@@ -217,6 +540,325 @@ def fact_crosstab_aligns(mod, repo):
     a2 = "values=values.rechunk(zones.chunks)" in src_g or \
          ("validate_arrays(zones,values)" in src_f and fact_stats_aligns(mod, repo))
     return a2, a3
+
+
+# ---------------------------------------------------------------- integer width of the breaks / the percentage expression
+INT_BITS = {"np.int8": 8, "np.int16": 16, "np.int32": 32, "np.int64": 64, "np.intp": 64, "np.int_": 64, "int": 64,
+            "'int8'": 8, "'int16'": 16, "'int32'": 32, "'int64'": 64, "'i4'": 32, "'i8'": 64, "'i2'": 16, "'i1'": 8}
+
+
+def fact_strides_bits(mod):
+    """`_strides` returns `strides`, created by `np.zeros(<n>, dtype=<signed integer type>)` (or np.empty / np.full):
+    the width of that type; 0 = not recognised"""
+    f = find_func(mod, "_strides")
+    if f is None:
+        return 0
+    rets = [n for n in ast.walk(f) if isinstance(n, ast.Return)]
+    if len(rets) != 1 or not isinstance(rets[0].value, ast.Name):
+        return 0
+    name = rets[0].value.id
+    made = [n for n in ast.walk(f) if isinstance(n, ast.Assign) and len(n.targets) == 1 and u(n.targets[0]) == name]
+    if len(made) != 1 or not isinstance(made[0].value, ast.Call) or u(made[0].value.func) not in ("np.zeros", "np.empty", "np.full"):
+        return 0
+    call = made[0].value
+    dt = [k.value for k in call.keywords if k.arg == "dtype"]
+    npos = 3 if u(call.func) == "np.full" else 2
+    if not dt and len(call.args) == npos:
+        dt = [call.args[npos - 1]]
+    if len(dt) != 1:
+        return 0
+    return INT_BITS.get(u(dt[0]).replace('"', "'"), 0)
+
+
+def pexpr_of(node, table):
+    """Python expression over count / total / numeric literals / `*` / `/` -> Lean `PExpr` term; None = not of that form"""
+    t = u(node)
+    if t in table:
+        return "." + table[t]
+    if isinstance(node, ast.Constant) and isinstance(node.value, bool):
+        return None
+    if isinstance(node, ast.Constant) and isinstance(node.value, int) and 0 <= node.value < 2 ** 31:
+        return f"(.lit {node.value})"
+    if isinstance(node, ast.Constant) and isinstance(node.value, float) and node.value == int(node.value) and 0 <= node.value < 2 ** 31:
+        return f"(.flit {int(node.value)})"
+    if isinstance(node, ast.BinOp) and isinstance(node.op, (ast.Mult, ast.Div)):
+        a, b = pexpr_of(node.left, table), pexpr_of(node.right, table)
+        if a is None or b is None:
+            return None
+        return f"(.{'mul' if isinstance(node.op, ast.Mult) else 'div'} {a} {b})"
+    return None
+
+
+def fact_pct_expr(mod, fname):
+    """under `if agg == 'percentage':` of `fname`: one loop over `cat_ids` whose body is the single statement
+    `D[cat] = <expr over D[cat], D[TOTAL_COUNT], literals>`; returns (Lean PExpr term, python text)"""
+    f = find_func(mod, fname)
+    if f is None:
+        return "PExpr.unknown", "no " + fname
+    found = []
+    for n in ast.walk(f):
+        if isinstance(n, ast.If) and cu(n.test) in ("agg=='percentage'", "'percentage'==agg"):
+            for loop, elem in elem_loops(f, "cat_ids", within=n.body):
+                body = [st for st in loop.body if not (isinstance(st, ast.Expr) and isinstance(st.value, ast.Constant))]
+                if len(body) != 1 or not isinstance(body[0], ast.Assign) or len(body[0].targets) != 1:
+                    return "PExpr.unknown", "loop body is not a single assignment"
+                tgt = body[0].targets[0]
+                if not (isinstance(tgt, ast.Subscript) and isinstance(tgt.value, ast.Name) and u(tgt.slice) == elem):
+                    return "PExpr.unknown", "target is not D[cat]"
+                d = tgt.value.id
+                table = {f"{d}[{elem}]": "count", f"{d}[TOTAL_COUNT]": "total", f"{d}['{TOTAL}']": "total"}
+                for nm, v in single_assignments_raw(f).items():      # `totals = D[TOTAL_COUNT]` inside the branch
+                    if u(v) in (f"{d}[TOTAL_COUNT]", f"{d}['{TOTAL}']"):
+                        table[nm] = "total"
+                e = pexpr_of(body[0].value, table)
+                found.append((e, ast.unparse(body[0].value)))
+    if len(found) != 1 or found[0][0] is None:
+        return "PExpr.unknown", (found[0][1] if found else "no percentage loop")
+    e = found[0][0]
+    return ("PExpr" + e[1:-1] if e.startswith("(") else "PExpr" + e), found[0][1]
+
+
+TOTAL = "_total_count"
+
+# ---------------------------------------------------------------- `_strides` -> a loop program (Model/ZonalLoop.lean)
+class _NotLoopLang(Exception):
+    pass
+
+
+def strides_prog(mod):
+    """`_strides` statement by statement -> Lean `LProg` term, in normal form: the temporaries bound once to a value
+    (`num_elements = flatten_zones.shape[0]`) are inlined, the array parameters are `a0, a1, ...`, the scalars
+    `v0, v1, ...` in the order of their first binding, `x += k` is `x = x + k`, the allocation
+    `out = np.zeros(<n>, dtype=...)` of the returned array becomes `outLen`.  (text, ok, note)"""
+    f = find_func(mod, "_strides")
+    bad = "{ outLen := .lit 0, body := [], ok := false }"
+    if f is None:
+        return bad, False, "no _strides"
+    arrays = {a.arg: f"a{i}" for i, a in enumerate(f.args.args)}
+    rets = [n for n in ast.walk(f) if isinstance(n, ast.Return)]
+    if len(rets) != 1 or not isinstance(rets[0].value, ast.Name) or f.body[-1] is not rets[0]:
+        return bad, False, "not a single trailing `return <array>`"
+    out = rets[0].value.id
+    temps = {k: v for k, v in single_assignments(f).items() if pure_expr(v) and k != out
+             and not any(isinstance(m, ast.Call) and u(m.func).startswith("np.") for m in ast.walk(v))}
+    scalars = {}
+
+    def ne(x):
+        x = _Subst(temps).visit(copy.deepcopy(x))
+        for _ in range(3):
+            x = _Subst(temps).visit(x)
+        if isinstance(x, ast.Constant) and isinstance(x.value, int) and not isinstance(x.value, bool) and x.value >= 0:
+            return f"(.lit {x.value})"
+        if isinstance(x, ast.Name):
+            if x.id in arrays or x.id == out:
+                raise _NotLoopLang("array used as a number: " + x.id)
+            if x.id not in scalars:
+                raise _NotLoopLang("scalar read before it is bound: " + x.id)
+            return f'(.var "{scalars[x.id]}")'
+        if isinstance(x, ast.BinOp) and isinstance(x.op, ast.Add):
+            return f"(.add {ne(x.left)} {ne(x.right)})"
+        t = u(x)
+        for a, nm in arrays.items():
+            if t in (f"len({a})", f"{a}.shape[0]", f"{a}.size"):
+                return f'(.len "{nm}")'
+        raise _NotLoopLang("number expression " + ast.unparse(x))
+
+    def be(x):
+        if isinstance(x, ast.BoolOp) and isinstance(x.op, ast.And):
+            parts = [be(v) for v in x.values]
+            acc = parts[0]
+            for q in parts[1:]:
+                acc = f"(.and {acc} {q})"
+            return acc
+        if isinstance(x, ast.Compare) and len(x.ops) == 1:
+            l, r, op = x.left, x.comparators[0], x.ops[0]
+            if isinstance(op, ast.Lt):
+                return f"(.lt {ne(l)} {ne(r)})"
+            if isinstance(op, ast.Gt):
+                return f"(.lt {ne(r)} {ne(l)})"
+            if isinstance(op, ast.Eq) and isinstance(l, ast.Subscript) and isinstance(r, ast.Subscript) \
+                    and u(l.value) in arrays and u(r.value) in arrays:
+                return f'(.eqAt "{arrays[u(l.value)]}" {ne(l.slice)} "{arrays[u(r.value)]}" {ne(r.slice)})'
+        raise _NotLoopLang("condition " + ast.unparse(x))
+
+    def bind(name):
+        if name in arrays or name == out:
+            raise _NotLoopLang("array rebound: " + name)
+        if name not in scalars:
+            scalars[name] = f"v{len(scalars)}"
+        return scalars[name]
+
+    out_len = [None]
+
+    def stmts(body):
+        res = []
+        for st in body:
+            if isinstance(st, ast.Expr) and isinstance(st.value, ast.Constant):
+                continue
+            if isinstance(st, ast.Return):
+                continue
+            if isinstance(st, ast.Assign) and len(st.targets) == 1 and isinstance(st.targets[0], ast.Name):
+                nm = st.targets[0].id
+                if nm in temps:
+                    continue
+                if nm == out:
+                    call = st.value
+                    if out_len[0] is not None or not (isinstance(call, ast.Call) and u(call.func) in ("np.zeros", "np.empty") and call.args):
+                        raise _NotLoopLang("allocation of the returned array")
+                    out_len[0] = ne(call.args[0])
+                    continue
+                e = ne(st.value)
+                res.append(f'.assign "{bind(nm)}" {e}')
+            elif isinstance(st, ast.AugAssign) and isinstance(st.target, ast.Name) and isinstance(st.op, ast.Add):
+                e = f'(.add {ne(st.target)} {ne(st.value)})'
+                res.append(f'.assign "{bind(st.target.id)}" {e}')
+            elif isinstance(st, ast.Assign) and len(st.targets) == 1 and isinstance(st.targets[0], ast.Subscript) \
+                    and u(st.targets[0].value) == out:
+                res.append(f".store {ne(st.targets[0].slice)} {ne(st.value)}")
+            elif isinstance(st, ast.While) and not st.orelse:
+                c = be(st.test)
+                res.append(f".whileDo {c} [{', '.join(stmts(st.body))}]")
+            elif isinstance(st, ast.For) and not st.orelse and isinstance(st.target, ast.Name) and isinstance(st.iter, ast.Call) \
+                    and u(st.iter.func) == "range" and len(st.iter.args) == 1 and not st.iter.keywords:
+                n = ne(st.iter.args[0])
+                v = bind(st.target.id)
+                res.append(f'.forRange "{v}" {n} [{", ".join(stmts(st.body))}]')
+            else:
+                raise _NotLoopLang("statement " + ast.unparse(st).splitlines()[0])
+        return res
+
+    try:
+        body = stmts(f.body)
+        if out_len[0] is None:
+            raise _NotLoopLang("the returned array is not allocated by np.zeros / np.empty")
+    except _NotLoopLang as ex_:
+        return bad, False, str(ex_)
+    return "{ outLen := " + out_len[0] + "\n    body := [" + ",\n      ".join(body) + "]\n    ok := true }", True, "ok"
+
+
+# ---------------------------------------------------------------- the validity filters, translated
+NODATA = "nodata_values"
+
+
+def mexpr_of(node, v):
+    """numpy boolean mask over the array whose text is `v` (and the scalar `nodata_values`) -> Lean `MExpr` term;
+    None = not of that form"""
+    if isinstance(node, ast.Call) and not node.keywords:
+        fn = u(node.func)
+        if len(node.args) == 1 and u(node.args[0]) == v and fn in ("np.isfinite", "np.isnan", "np.isinf"):
+            return "." + fn[3:]
+        if fn == "np.logical_not" and len(node.args) == 1:
+            a = mexpr_of(node.args[0], v)
+            return None if a is None else f"(.not {a})"
+        if fn in ("np.logical_and", "np.logical_or") and len(node.args) == 2:
+            a, b = mexpr_of(node.args[0], v), mexpr_of(node.args[1], v)
+            return None if a is None or b is None else f"(.{'and' if fn.endswith('and') else 'or'} {a} {b})"
+        return None
+    if isinstance(node, ast.Compare) and len(node.ops) == 1:
+        l, r, op = u(node.left), u(node.comparators[0]), node.ops[0]
+        if {l, r} == {v, NODATA} and isinstance(op, (ast.NotEq, ast.Eq)):
+            return ".neNodata" if isinstance(op, ast.NotEq) else ".eqNodata"
+        if l == NODATA and r == "None" and isinstance(op, (ast.Is, ast.IsNot)):
+            return ".nodataNone" if isinstance(op, ast.Is) else "(.not .nodataNone)"
+        return None
+    if isinstance(node, ast.BinOp) and isinstance(node.op, (ast.BitAnd, ast.BitOr)):
+        a, b = mexpr_of(node.left, v), mexpr_of(node.right, v)
+        return None if a is None or b is None else f"(.{'and' if isinstance(node.op, ast.BitAnd) else 'or'} {a} {b})"
+    if isinstance(node, ast.BoolOp):          # python-level and / or of scalar tests
+        parts = [mexpr_of(x, v) for x in node.values]
+        if any(x is None for x in parts):
+            return None
+        out = parts[0]
+        for x in parts[1:]:
+            out = f"(.{'and' if isinstance(node.op, ast.And) else 'or'} {out} {x})"
+        return out
+    if isinstance(node, ast.UnaryOp) and isinstance(node.op, (ast.Invert, ast.Not)):
+        a = mexpr_of(node.operand, v)
+        return None if a is None else f"(.not {a})"
+    return None
+
+
+def block_of(func, node):
+    """(innermost statement list, index) of the statement that contains `node`"""
+    def search(blk):
+        for i, st in enumerate(blk):
+            if st is node or any(m is node for m in ast.walk(st)):
+                for field in ("body", "orelse", "finalbody", "handlers"):
+                    sub = getattr(st, field, None)
+                    if isinstance(sub, list) and sub and isinstance(sub[0], ast.stmt):
+                        r = search(sub)
+                        if r[0] is not None:
+                            return r
+                return blk, i
+        return None, None
+    return search(func.body)
+
+
+def mask_by_name(func, use, name, v):
+    """the mask held by the local `name` at the statement `use`: built by `name = M`, then any of `name &= M`,
+    `name |= M`, `name = name & M`, `if <scalar test>: name &= M` in the same block; anything else -> None"""
+    blk, idx = block_of(func, use)
+    if blk is None:
+        return None
+    cur = None
+    for st in blk[:idx]:
+        stores = [m for m in ast.walk(st) if isinstance(m, ast.Name) and m.id == name and isinstance(m.ctx, ast.Store)]
+        if not stores:
+            continue
+        if isinstance(st, ast.Assign) and len(st.targets) == 1 and u(st.targets[0]) == name:
+            val = st.value
+            if isinstance(val, ast.BinOp) and isinstance(val.op, (ast.BitAnd, ast.BitOr)) and u(val.left) == name and cur is not None:
+                b = mexpr_of(val.right, v)
+                cur = None if b is None else f"(.{'and' if isinstance(val.op, ast.BitAnd) else 'or'} {cur} {b})"
+            else:
+                cur = mexpr_of(val, v)
+            if cur is None:
+                return None
+        elif isinstance(st, ast.AugAssign) and u(st.target) == name and isinstance(st.op, (ast.BitAnd, ast.BitOr)) and cur is not None:
+            b = mexpr_of(st.value, v)
+            if b is None:
+                return None
+            cur = f"(.{'and' if isinstance(st.op, ast.BitAnd) else 'or'} {cur} {b})"
+        elif isinstance(st, ast.If) and not st.orelse and len(st.body) == 1 and isinstance(st.body[0], ast.AugAssign) \
+                and u(st.body[0].target) == name and isinstance(st.body[0].op, ast.BitAnd) and cur is not None:
+            c, b = mexpr_of(st.test, v), mexpr_of(st.body[0].value, v)
+            if c is None or b is None:
+                return None
+            cur = f"(.and {cur} (.or (.not {c}) {b}))"      # the conjunct only applies when the test holds
+        else:
+            return None
+    return cur
+
+
+def fact_mask(mod, fname):
+    """the one boolean-mask selection `A[M]` of `fname` whose mask is built from isfinite / isnan / isinf / comparisons
+    with nodata_values: (Lean MExpr term, python text)"""
+    f = find_func(mod, fname)
+    if f is None:
+        return "MExpr.unknown", "no " + fname
+    found = []
+    for n in ast.walk(f):
+        if isinstance(n, ast.Subscript) and isinstance(n.ctx, ast.Load) and not isinstance(n.slice, (ast.Slice, ast.Tuple, ast.Constant)):
+            v = u(n.value)
+            m = mexpr_of(n.slice, v)
+            if m is None and isinstance(n.slice, ast.Name):
+                if n.slice.id in single_assignments_raw(f) and not any(
+                        isinstance(x, ast.AugAssign) and u(x.target) == n.slice.id for x in ast.walk(f)):
+                    m = mexpr_of(single_assignments_raw(f)[n.slice.id], v)
+                else:
+                    m = mask_by_name(f, n, n.slice.id, v)
+                if m is None and any(isinstance(x, (ast.Assign, ast.AugAssign)) and any(
+                        isinstance(y, ast.Call) and u(y.func).startswith("np.is") for y in ast.walk(x)) and
+                        any(isinstance(y, ast.Name) and y.id == n.slice.id and isinstance(y.ctx, ast.Store) for y in ast.walk(x))
+                        for x in ast.walk(f)):
+                    m = "?"           # a mask variable built in a way that is not understood
+            if m is not None:
+                found.append((m, ast.unparse(n)))
+    if len(found) != 1 or found[0][0] == "?":
+        return "MExpr.unknown", "; ".join(x[1] for x in found) or "no mask selection"
+    e = found[0][0]
+    return ("MExpr" + e[1:-1] if e.startswith("(") else "MExpr" + e), found[0][1]
+
 
 
 def generate(repo):
@@ -234,10 +876,19 @@ def generate(repo):
     rows_dk = fact_rows_sorted_dask(mod)
     st_al = fact_stats_aligns(mod, repo)
     a2, a3 = fact_crosstab_aligns(mod, repo)
+    bits = fact_strides_bits(mod)
+    pct_np, pct_np_src = fact_pct_expr(mod, "_crosstab_numpy")
+    pct_dk, pct_dk_src = fact_pct_expr(mod, "_crosstab_df_dask")
+    sprog, sprog_ok, sprog_note = strides_prog(mod)
+    masks = {nm: fact_mask(mod, fn) for nm, fn in (("maskCalcStats", "_calc_stats"), ("maskFindCats", "_find_cats"),
+                                                   ("maskZone2d", "_single_zone_crosstab_2d"),
+                                                   ("maskZone3d", "_single_zone_crosstab_3d"))}
     rep = dict(stripIndices=strip, strip_note=strip_note, comb=combs, blockStatsOk=block_ok, daskArgs=args,
                catStartAlways=cat_always, rowsSortedNumpy=rows_np, rowsSortedDask=rows_dk,
-               statsAligns=st_al, crosstab2dAligns=a2, crosstab3dAligns=a3)
-    lines = ["import XrsVerif.Model.ZonalDask",
+               statsAligns=st_al, crosstab2dAligns=a2, crosstab3dAligns=a3,
+               stridesBits=bits, pctNumpy=pct_np, pctNumpy_src=pct_np_src, pctDask=pct_dk, pctDask_src=pct_dk_src,
+               masks={k: v[0] for k, v in masks.items()}, stridesProg=" ".join(sprog.split()), stridesProg_note=sprog_note)
+    lines = ["import XrsVerif.Model.Crosstab", "import XrsVerif.Model.ZonalLoop",
              "/-! GENERATED by harness/facts_zonal.py from the current /repo source (xrspatial/zonal.py) -- do not edit. -/",
              "namespace XrsVerif.Gen.Zonal", "open XrsVerif.Zonal", "",
              "/-- `_sort_and_stride` removes the non-finite-zone entries from `sorted_indices` before the gather -/",
@@ -261,5 +912,16 @@ def generate(repo):
              f"def statsAligns : Bool := {lean_bool(st_al)}",
              f"def crosstab2dAligns : Bool := {lean_bool(a2)}",
              f"def crosstab3dAligns : Bool := {lean_bool(a3)}", "",
-             "end XrsVerif.Gen.Zonal", ""]
+             "/-- width (bits) of the signed integers `_strides` returns; the crosstab counts are differences of them -/",
+             f"def stridesBits : Nat := {bits}", "",
+             "/-- the `percentage` expression of `_crosstab_numpy`: " + pct_np_src.replace("-/", "- /") + " -/",
+             f"def pctNumpy : PExpr := {pct_np}",
+             "/-- the `percentage` expression of `_crosstab_df_dask`: " + pct_dk_src.replace("-/", "- /") + " -/",
+             f"def pctDask : PExpr := {pct_dk}", "",
+             "-- the validity filters (`A[mask]`) of `_calc_stats`, `_find_cats` (2-D), `_single_zone_crosstab_2d/_3d`"] + [
+             x for nm, (term, src) in masks.items() for x in
+             ("/-- " + " ".join(src.split()).replace("-/", "- /") + " -/", f"def {nm} : MExpr := {term}")] + [
+             "", "/-- `_strides`, statement by statement, in the translator's normal form (" + sprog_note + ") -/",
+             "def stridesProg : LProg :=", "  " + sprog,
+             "", "end XrsVerif.Gen.Zonal", ""]
     yield "Zonal.lean", "\n".join(lines), rep
